@@ -64,12 +64,58 @@ func (d *fakeDNS) set(name string, rounds [][]netip.Addr) {
 	d.mu.Unlock()
 }
 
-// round returns how many complete lookups (A queries) the name has had.
+// failRepeat is how many queries of one type a failing round absorbs: the Go
+// resolver repeats a query that was answered SERVFAIL (resolv.conf attempts,
+// default 2) before it gives the lookup up as a temporary failure.
+const failRepeat = 2
+
+// failing reports whether a round is a resolver fault (a single zero address).
+func failing(round []netip.Addr) bool { return len(round) == 1 && !round[0].IsValid() }
+
+// roundOf maps the number of queries of one type a name has had to the round the
+// next query is answered from.
+func roundOf(rounds [][]netip.Addr, queries int) int {
+	for k, r := range rounds {
+		cost := 1
+		if failing(r) {
+			cost = failRepeat
+		}
+
+		if queries < cost {
+			return k
+		}
+
+		queries -= cost
+	}
+
+	return len(rounds) - 1
+}
+
+// lookups returns how many complete lookups (rounds of A queries) the name has had.
 func (d *fakeDNS) lookups(name string) int {
 	d.mu.Lock()
 	defer d.mu.Unlock()
 
-	return d.countA[strings.ToLower(name)]
+	name = strings.ToLower(name)
+	n := d.countA[name]
+	rounds := d.rounds[name]
+	done := 0
+
+	for _, r := range rounds {
+		cost := 1
+		if failing(r) {
+			cost = failRepeat
+		}
+
+		if n < cost {
+			break
+		}
+
+		n -= cost
+		done++
+	}
+
+	return done + n
 }
 
 func (d *fakeDNS) serve() {
@@ -120,22 +166,24 @@ func (d *fakeDNS) answer(q []byte) []byte {
 
 	var addrs []netip.Addr
 
+	servfail := false
+
 	if known && len(rounds) > 0 && (qtype == 1 || qtype == 28) {
 		cnt := &d.countA
 		if qtype == 28 {
 			cnt = &d.count6
 		}
 
-		k := (*cnt)[name]
-		(*cnt)[name] = k + 1
+		k := roundOf(rounds, (*cnt)[name])
+		(*cnt)[name]++
 
-		if k >= len(rounds) {
-			k = len(rounds) - 1
-		}
-
-		for _, a := range rounds[k] {
-			if (qtype == 1) == a.Is4() {
-				addrs = append(addrs, a)
+		if failing(rounds[k]) {
+			servfail = true
+		} else {
+			for _, a := range rounds[k] {
+				if (qtype == 1) == a.Is4() {
+					addrs = append(addrs, a)
+				}
 			}
 		}
 	}
@@ -147,6 +195,10 @@ func (d *fakeDNS) answer(q []byte) []byte {
 	flags := uint16(0x8180)
 	if !known {
 		flags = 0x8183 // NXDOMAIN
+	}
+
+	if servfail {
+		flags = 0x8182 // SERVFAIL: the resolver treats the lookup as a temporary failure
 	}
 
 	rsp = binary.BigEndian.AppendUint16(rsp, flags)
